@@ -6,7 +6,7 @@ import time
 
 from facts import VERIF, REPO, AnalysisBroken
 
-EVIDENCE = os.path.join(VERIF, "evidence")
+EVIDENCE = os.environ.get("GSA_EVIDENCE_DIR") or os.path.join(VERIF, "evidence")
 REPLAY = os.path.join(EVIDENCE, "replay")
 KNOWN = os.path.join(VERIF, "known_findings.json")
 
@@ -88,7 +88,7 @@ class Check:
                 json.dump({"property": self.pid, "report": o,
                            "how_to_reproduce": "./check %s --tier %s   (static: re-derives the report from /repo's sources)" % (self.pid, self.tier)},
                           f, indent=1)
-            print("REPORT %s %s at %s: %s" % (o["rule"], o["instance"], o["where"], o.get("detail", "")))
+            print("REPORT %s %s at %s: %s [key %s]" % (o["rule"], o["instance"], o["where"], o.get("detail", ""), o["key"]))
             for p in o.get("path", []) or []:
                 print("    " + p)
             print("VIOLATION property=%s replay=%s" % (self.pid, rp))
